@@ -15,3 +15,6 @@ mod include;
 pub use include::*;
 
 pub mod tokens;
+
+#[cfg(trark_rssl_verif)]
+pub mod verif_collections;
